@@ -532,6 +532,7 @@ pub fn driver_main(check: &dyn Check, tier: Tier, seed: u64, replay_idx: Option<
                 ws[s].done = true;
             }
         };
+        let mut ended: u64 = 0;
         loop {
             while let Ok(ev) = rx.recv_timeout(Duration::from_millis(100)) {
                 match ev {
@@ -544,6 +545,7 @@ pub fn driver_main(check: &dyn Check, tier: Tier, seed: u64, replay_idx: Option<
                         if ws[s].gen == g {
                             ws[s].open = None;
                             ws[s].next = v["i"].as_u64().unwrap_or(ws[s].next) + step;
+                            ended += 1;
                             agg.absorb(&v);
                         }
                     }
@@ -582,8 +584,8 @@ pub fn driver_main(check: &dyn Check, tier: Tier, seed: u64, replay_idx: Option<
             if ws.iter().all(|w| w.done) {
                 break;
             }
-            if suspects.len() >= 12 {
-                // a dozen cases that did not come back: something systematic (or a hopelessly loaded
+            if suspects.len() >= 12 && suspects.len() as u64 * 50 > ended {
+                // a dozen cases that did not come back, and more than 2% of the cases so far: something systematic (or a hopelessly loaded
                 // machine). Do not spend a watchdog period on each of the remaining cases: stop here, let
                 // the first suspects be re-run in isolation below, and say that the run was cut short.
                 let left: u64 = ws.iter().filter(|w| !w.done).map(|w| (n.saturating_sub(w.next) + step - 1) / step).sum();
